@@ -130,7 +130,19 @@ def gen_matrix(spec: dict) -> torch.Tensor:
     m, n = spec["m"], spec["n"]
     kind = spec.get("kind", "gauss")
     dt = torch.float64
-    if kind == "weakdir":
+    if kind == "outliers":
+        # ordinary rows + `b` rows of huge positive and `b` rows of huge negative entries that partly cancel (Byzantine rows):
+        # arithmetic that lets the trimmed entries take part (column sum minus extremes, ...) absorbs the kept values differently
+        # in every row order
+        b = spec.get("b", 1)
+        big = spec.get("big", 1e20)
+        M = torch.randn(m, n, generator=g, dtype=dt)
+        pos = torch.randperm(m, generator=g)
+        for j in range(b):
+            M[pos[j]] = big * (1.0 + torch.rand(n, generator=g, dtype=dt))
+            # (half of the time the negative row is the EXACT opposite: (x + B) - B = 0 but (B - B) + x = x)
+            M[pos[b + j]] = -M[pos[j]] if spec["seed"] % 2 == 0 else -big * (1.0 + torch.rand(n, generator=g, dtype=dt))
+    elif kind == "weakdir":
         # dominant rows aligned with one direction u, a TINY row that conflicts with them, and a weak (but non-null) second
         # direction v that carries the conflict: hiding v (a rank cut-off on squared singular values, ...) changes the answer
         u = torch.randn(n, generator=g, dtype=dt)
